@@ -66,7 +66,7 @@ class CompositeType(SerializableType):
     ):
         super().__init__()
 
-        self._name = str(name).strip()
+        self._name = str(name)
         self._version = version
         self._attributes = list(attributes)
         self._attributes_by_name = {a.name: a for a in self._attributes if not isinstance(a, PaddingField)}
